@@ -389,6 +389,11 @@ def run_query(builder, q, vars_, tier, workroot):
                        and not re.search(r"#auto\.(assigns|frees|no_alloc|loop_assigns)", o['name'])
                        and not o.get('function', '').startswith('__CPROVER_contracts')]
             labelled = [o for o in genuine if '#auto.' not in o['name']]
+            if genuine and all(o.get('status') == 'UNKNOWN' for o in unwound_failed):
+                # the unwinding assertion itself was not refuted, cbmc only left it (and everything else behind the first
+                # failing obligation) undecided: every FAILURE it did report has a trace and stays a counterexample,
+                # the automatic safety checks and the shim preconditions included
+                labelled = genuine
             if labelled:
                 res.failed = labelled
                 res.reason = 'refuted (unwinding assertion %s not discharged: the other obligations of this query are undecided)' % unwound_failed[0]['property']
